@@ -6,6 +6,7 @@ From Snaps Require Import Base.Bytes Base.Lines Base.Dec Base.Assoc.
 From Snaps Require Import Model.Frame Model.PathModel Model.Mode Model.Api.
 From Snaps Require Import Proofs.BytesP Proofs.LinesP Proofs.FrameP Proofs.DiffDecisionP Proofs.ApiP
   Proofs.StandaloneP Proofs.StepP Proofs.OutcomeP.
+From Snaps Require Import Proofs.HistoryP Proofs.StandaloneHistoryP Proofs.NoFalsePassHistoryP.
 Local Open Scope string_scope.
 
 (* Multi-entry APIs: the addressed entry stores what was written for v0; the call is given
@@ -60,3 +61,32 @@ Example C02_example :
   same AYaml (snap_of AYaml [97; 255; 98]%N) [97; 254; 98]%N = false /\
   same AJson (snap_of AJson (B "{}")) (B "{ }") = false.
 Proof. vm_compute. repeat split. Qed.
+
+(* ---------- over histories ---------- *)
+
+(* A recording history h (any interleaving of the five entry points, only passes and creations) is replayed in a new process with
+   ONE call's value changed so that what would be stored differs, updating not being enabled for that call: that call fails with a
+   diff (exactly one error, no log, no write, at the recorded slot), every other call passes silently, the files are unchanged. *)
+Theorem C02_changed_call_fails : forall s0 h1 h2 e2 a hd test text text' c,
+  let o := OMatch a hd test (POk text) in
+  let o' := OMatch a hd test (POk text') in
+  let h := (h1 ++ o :: h2)%list in
+  let h' := (h1 ++ o' :: h2)%list in
+  fresh s0 -> Forall mixed_op_ok h -> Forall has_value h ->
+  wf_on (fun p => In p (map fpath (mfacts s0 h))) (s_fs s0) ->
+  disjoint_paths (mfacts s0 h) (sfacts s0 h) ->
+  Forall rec_ok (snd (run s0 h)) ->
+  nth_error (s_cfgs (fst (run s0 h1))) hd = Some c ->
+  stored_of a text' <> stored_of a text ->
+  should_update e2 (c_update c) = false ->
+  let s1 := fst (run s0 h) in
+  let t0 := replay_start s1 e2 in
+  exists obs1 ob obs2,
+    snd (run t0 h') = (obs1 ++ ob :: obs2)%list /\
+    List.length obs1 = List.length h1 /\ List.length obs2 = List.length h2 /\
+    Forall silent_pass obs1 /\ diff_fail ob /\ Forall silent_pass obs2 /\
+    o_path ob = o_path (nth (List.length h1) (snd (run s0 h)) obs_none) /\
+    o_id ob = o_id (nth (List.length h1) (snd (run s0 h)) obs_none) /\
+    s_fs (fst (run t0 h')) = s_fs s1.
+Proof. exact changed_call_fails_all. Qed.
+Print Assumptions C02_changed_call_fails.
